@@ -28,12 +28,40 @@ def _line_reads(prog):
         if not (rel.startswith("rules/") or rel in ("context.py", "registry.py")):
             continue
         for n in walk_fn(fn.node):
-            if isinstance(n, ast.Subscript) and isinstance(n.ctx, ast.Load) and isinstance(n.value, ast.Attribute) \
-                    and n.value.attr == "pos" and isinstance(n.slice, ast.Constant) and n.slice.value == 0:
-                out.append((fn, n))
+            if isinstance(n, ast.Subscript) and isinstance(n.ctx, ast.Load) and isinstance(n.slice, ast.Constant) and n.slice.value == 0 \
+                    and _is_pos(fn, n.value):
+                out.append((fn, n))                     # X.pos[0]   (also through `p = X.pos; p[0]`)
             elif isinstance(n, ast.Attribute) and (n.attr == "lineno" or n.attr in line_attrs) and isinstance(n.ctx, ast.Load):
                 out.append((fn, n))
+            elif isinstance(n, (ast.Assign, ast.For, ast.comprehension)):
+                # line, column = X.pos   /   for line, column in (t.pos for ...): every use of `line` is a line read
+                tgts = n.targets if isinstance(n, ast.Assign) else [n.target]
+                val = n.value if isinstance(n, ast.Assign) else None
+                for t in tgts:
+                    if isinstance(t, (ast.Tuple, ast.List)) and len(t.elts) == 2 and isinstance(t.elts[0], ast.Name) \
+                            and val is not None and _is_pos(fn, val):
+                        out += [(fn, u) for u in _uses_reached(fn, n, t.elts[0].id)]
     return out
+
+
+def _is_pos(fn, e) -> bool:
+    from ..dataflow import expand_aliases
+    x = expand_aliases(fn, e)
+    return isinstance(x, ast.Attribute) and x.attr == "pos"
+
+
+def _uses_reached(fn, def_stmt, name: str):
+    """Load occurrences of *name* in fn that the binding made by *def_stmt* reaches."""
+    from ..dataflow import _rd_of, cfg_node_of
+    g, rd = _rd_of(fn)
+    d = cfg_node_of(g, def_stmt)
+    out = []
+    for u in walk_fn(fn.node):
+        if isinstance(u, ast.Name) and u.id == name and isinstance(u.ctx, ast.Load):
+            at = cfg_node_of(g, u)
+            if d is None or at is None or d in rd.get(at, {}).get(name, set()):
+                out.append(u)
+    return sorted(out, key=lambda x: (x.lineno, x.col_offset))
 
 
 def _role_of_line(fn: Fn, node, depth=0) -> List[tuple]:
@@ -143,7 +171,7 @@ def _line_valued(e) -> str:
 def rule_lines_opaque(run, prog):
     run.rule("R-19.1", "TAINT line coordinate: every read of a token's / highlight's line number in rules, Context and the "
              "registry is used as a POSITION (handed to a Highlight / Token / Error), for a SAME-LINE test against another "
-             "line number, or in a MESSAGE; never compared with a constant, ordered or computed with", floor=5)
+             "line number, or in a MESSAGE; never compared with a constant, ordered or computed with", floor=3)
     n = 0
     for fn, node in _line_reads(prog):
         n += 1
@@ -153,14 +181,19 @@ def rule_lines_opaque(run, prog):
                "a rule depends on the absolute line number: " + "; ".join(str(b) for b in bad)
                + " - putting the 11 header lines (or any line) in front changes its answer", node,
                roles=[f"{r}:{d}" for r, d in roles])
-    run.require(n >= 5, f"only {n} line-number reads found (floor 5)")
+    run.require(n >= 3, f"only {n} line-number reads found (floor 3)")
 
 
 ASSUME = None   # set per evaluation: the kind of the last statement
 
 
-def _test_value(test, last: str, assume_global: bool = True) -> Optional[bool]:
-    """Truth of a test under the assumption: context.history[-1] == last, the current scope is the GlobalScope."""
+def _test_value(test, last: str, assume_global: bool = True, fn=None) -> Optional[bool]:
+    """Truth of a test under the assumption: context.history[-1] == last, the current scope is the GlobalScope.
+    With *fn* (the function the test belongs to) local aliases such as `history = context.history`, `last = history[-1]`,
+    `scope = context.scope` are seen through (reaching definitions), and constants are folded (names of tuples / strings)."""
+    if fn is not None:
+        from ..dataflow import expand_aliases
+        test = _fold_constants(fn, expand_aliases(fn, test))
     if isinstance(test, ast.UnaryOp) and isinstance(test.op, ast.Not):
         v = _test_value(test.operand, last, assume_global)
         return None if v is None else not v
@@ -208,6 +241,61 @@ def _test_value(test, last: str, assume_global: bool = True) -> Optional[bool]:
     return None
 
 
+def _fold_constants(fn, test):
+    """Right-hand sides of comparisons that are names / attribute reads of folded string or tuple constants are replaced
+    by literals, so that `history[-1] in SKIPPED` (SKIPPED hoisted to module level) reads like the literal form."""
+    repl = {}
+    for c in ast.walk(test):
+        if isinstance(c, ast.Compare) and len(c.ops) == 1:
+            r = c.comparators[0]
+            if isinstance(r, (ast.Name, ast.Attribute, ast.BinOp)):
+                v = fold_in_fn(r, fn, default=None)
+                if isinstance(v, str):
+                    repl[id(r)] = ast.Constant(v)
+                elif isinstance(v, (tuple, list, set, frozenset)) and all(isinstance(x, str) for x in v):
+                    repl[id(r)] = ast.Tuple([ast.Constant(x) for x in sorted(v)], ast.Load())
+    if not repl:
+        return test
+    from ..dataflow import _clone
+    return _clone(test, repl)
+
+
+def _context_locals(fn) -> Set[str]:
+    """Locals of *fn* that denote (part of) the context: bound from a path / argument-less method call rooted at
+    `context` or at another such local (`sc = context.scope`, `sc = sc.outer()`, `scope = context.scope`)."""
+    from ..dataflow import is_path
+    derived: Set[str] = set()
+
+    def root(e):
+        while isinstance(e, (ast.Attribute, ast.Subscript)):
+            e = e.value
+        return e.id if isinstance(e, ast.Name) else None
+
+    changed = True
+    while changed:
+        changed = False
+        for n in walk_fn(fn.node):
+            if isinstance(n, ast.Assign) and len(n.targets) == 1 and isinstance(n.targets[0], ast.Name):
+                v = n.value
+                if isinstance(v, ast.Call) and not v.args and not v.keywords and isinstance(v.func, ast.Attribute):
+                    v = v.func.value
+                if is_path(v) and not isinstance(v, ast.Name) or isinstance(v, ast.Name) and v.id in derived:
+                    r = root(v)
+                    if (r == "context" or r in derived) and n.targets[0].id not in derived:
+                        derived.add(n.targets[0].id)
+                        changed = True
+    return derived
+
+
+def _is_context_store(t, derived: Set[str]) -> bool:
+    if not isinstance(t, ast.Attribute):
+        return False
+    e = t.value
+    while isinstance(e, (ast.Attribute, ast.Subscript)):
+        e = e.value
+    return isinstance(e, ast.Name) and (e.id in ("context", "sc") or e.id in derived)
+
+
 ALLOWED_ATTRS = {"lines", "header", "header_started", "header_parsed", "tkn_scope", "state", "comment", "hash"}
 
 
@@ -227,7 +315,7 @@ def rule_transparent(run, prog):
         blocked = {}
         for node in g.nodes:
             if node.kind == "test":
-                v = _test_value(_strip_len_guard(node.ast), last)
+                v = _test_value(_strip_len_guard(node.ast, up), last, fn=up)
                 if v is not None:
                     blocked[node.id] = "F" if v else "T"
         reach = g.reachable(g.entry, follow_exc=False, edge_filter=lambda n, m, lab: not (n in blocked and lab == blocked[n]))
@@ -250,12 +338,13 @@ def rule_transparent(run, prog):
             continue
         for m in c.methods.values():
             st = []
+            derived = _context_locals(m)
             for n in walk_fn(m.node):
                 if isinstance(n, (ast.Assign, ast.AugAssign)):
                     for t in (n.targets if isinstance(n, ast.Assign) else [n.target]):
-                        if isinstance(t, ast.Attribute) and (text(t).startswith("context.") or text(t).startswith("sc.")) \
-                                and t.attr not in ALLOWED_ATTRS:
-                            st.append(n)
+                        for sub in ([t] + (list(t.elts) if isinstance(t, (ast.Tuple, ast.List)) else [])):
+                            if _is_context_store(sub, derived) and sub.attr not in ALLOWED_ATTRS and not any(n is x for x in st):
+                                st.append(n)
             if not st:
                 continue
             n_checks += 1
@@ -264,7 +353,7 @@ def rule_transparent(run, prog):
                 blocked = {}
                 for node in gg.nodes:
                     if node.kind == "test":
-                        v = _test_value(_strip_len_guard(node.ast), last)
+                        v = _test_value(_strip_len_guard(node.ast, m), last, fn=m)
                         if v is not None:
                             blocked[node.id] = "F" if v else "T"
                 reach = gg.reachable(gg.entry, follow_exc=False, edge_filter=lambda n, m_, lab: not (n in blocked and lab == blocked[n]))
@@ -276,8 +365,11 @@ def rule_transparent(run, prog):
     run.require(n_checks >= 1, "no storing check found that runs after comments / empty lines (expected CheckLineIndent)")
 
 
-def _strip_len_guard(test):
+def _strip_len_guard(test, fn=None):
     """`len(self.history) > 0 and (...)` -> `(...)`: the length guard holds whenever a statement has been recognised."""
+    if fn is not None:
+        from ..dataflow import expand_aliases
+        test = expand_aliases(fn, test)
     if isinstance(test, ast.BoolOp) and isinstance(test.op, ast.And) and len(test.values) == 2 \
             and text(test.values[0]).replace("self.", "context.") in ("len(context.history) > 0", "len(context.history) >= 1",
                                                                        "len(context.history) != 0", "context.history"):
